@@ -623,9 +623,16 @@ func (tm *TileMatrix) UnmarshalJSONFromMap(data interface{}) error {
 	}
 
 	// negative numbers would silently wrap around in the unsigned sizes
-	for _, key := range []string{"tileWidth", "tileHeight", "matrixWidth", "matrixHeight"} {
-		if number, isNumber := dataMap[key].(float64); isNumber && number < 0 {
-			return fmt.Errorf(`%v should be positive, not %v`, key, number)
+	if err = errIfNegative(dataMap, "tileWidth", "tileHeight", "matrixWidth", "matrixHeight"); err != nil {
+		return err
+	}
+	if rawVariableMatrixWidths, isList := dataMap["variableMatrixWidths"].([]interface{}); isList {
+		for _, rawVariableMatrixWidth := range rawVariableMatrixWidths {
+			if variableMatrixWidthMap, isMap := rawVariableMatrixWidth.(map[string]interface{}); isMap {
+				if err = errIfNegative(variableMatrixWidthMap, "coalesce", "minTileRow", "maxTileRow"); err != nil {
+					return err
+				}
+			}
 		}
 	}
 
@@ -636,6 +643,15 @@ func (tm *TileMatrix) UnmarshalJSONFromMap(data interface{}) error {
 
 	validate := validator.New(validator.WithRequiredStructEnabled())
 	return validate.Struct(tm)
+}
+
+func errIfNegative(dataMap map[string]interface{}, keys ...string) error {
+	for _, key := range keys {
+		if number, isNumber := dataMap[key].(float64); isNumber && number < 0 {
+			return fmt.Errorf(`%v should not be negative: %v`, key, number)
+		}
+	}
+	return nil
 }
 
 type CornerOfOrigin string
